@@ -80,22 +80,22 @@ PROPS['C17'] = {'module': 'misc',
     'level_text': 'TLC enumerates every (format n_word<=W, rounding, overflow, scale k/2^j with k in +-{1,3,5,7}, bias) and every quarter-LSB grid value u; the harness stores v = u*s + b (all intermediates exact doubles; the witness u*s+b = v is re-checked by TLC) and TLC judges code = Quantize(u), read = s*code*2^-f + b, flags as for the unscaled value, upper/lower/precision through the same affine map, and that inference sizes the transformed value.',
     'level_note': _AR_NOTE + ' Quick tier executes a rotating quarter of the configurations (all of them are model-checked); thorough executes all.'}
 PROPS['C15'] = {'module': 'reduce',
-    'technique': 'TLC exhaustive model check of the growth rules for sums / products / dot over every assignment of the extremes {Lo,Hi}^n (n<=NMAX, n_word<=3) + replay on the real code of all 12 functions through numpy and method routes, axis None and every axis, shapes to 3x3 / length 8 + TLC trace validation (folds over the element matrix in TLA+) of formats to 12 bits',
+    'technique': 'TLC exhaustive model check of the growth rules for sums / products / dot over every assignment of the extremes {Lo,Hi}^n (n<=NMAX, n_word<=3) + replay on the real code of all 12 functions through numpy and method routes, axis None and every axis, shapes to 3x3 / length 8 + TLC trace validation (folds over the element matrix in TLA+) of formats to 12 bits + lemma CumProdFits (every partial product of cumprod fits the repaired rule, formats with negative / oversized fraction lengths) and a negative instance for the old rule that TLC must reject',
     'level_text': 'TLC checks that with ceil(log2 n) extra word bits for sums, n*n_word bits for products and both for dot the exact result of every {Lo,Hi}^n vector fits (and that the sum rule is tight); the harness executes sum, cumsum, prod, cumprod, max, min, sort, clip, transpose, diagonal, trace, dot and matmul on the real arrays through np.f(x) and x.f(), and TLC recomputes each result as a fold over the matrix of integer codes and compares value-exactly, with shape, returned type and absence of overflow/underflow.',
     'level_note': _AR_NOTE}
 _SYS_NOTE = ('Trusted: TLC/SANY, the JVM, FxpSystem/FxpTrace (the heap model: sharing kept as partitions of positions/objects), FxpN, and the replayer '
              'harness/x_system.py which maps action records to public calls and reads public attributes. Small-scope: 3-4 objects, arrays of 2 elements, 2-3 small '
              'formats, boundary inputs; depth-bounded exhaustive exploration plus simulated longer behaviours.')
 PROPS['C20'] = {'module': 'system',
-    'technique': 'TLC model check of the heap state machine FxpSystem (invariants NoSharedConfig/ViewsOnly, action properties NonInterference, ViewWriteThrough, BadConfigRejected, SourceUnchanged; negative instance with shallow like() must be rejected) + replay of the complete transition cover and of simulated behaviours on real objects + TLC trace validation (FxpTrace) of every object after every call',
+    'technique': 'TLC model check of the heap state machine FxpSystem (invariants NoSharedConfig/ViewsOnly, action properties NonInterference, ViewWriteThrough, BadConfigRejected, SourceUnchanged; negative instance with shallow like() must be rejected) + replay of the complete transition cover and of simulated behaviours on real objects + TLC trace validation (FxpTrace) of every object after every call + TLC model check and replay of the extension instance MC_System_X (bitwise operators and masks, expanding shifts, reductions, constants, in-place operators, raw stores; action properties ShiftExact, ReduceExact, BitKeepsFormat, IOpRebinds) with a vacuity guard on the action cover',
     'level_text': 'All histories of the bounded instance (objects derived by constructor, like=, like(), deepcopy, indexing, arithmetic, negation, conversion; then value writes, indexed writes through views, config changes incl. invalid values, flag-raising writes, reset) are explored by TLC; each transition yields a behaviour that is executed on real Fxp objects, and after EVERY call the format, codes, config and status of EVERY live object are compared by TLC with the model - a leak from one object into another, a missing write-through or a mutated input container is a named verdict.',
     'level_note': _SYS_NOTE}
 PROPS['C04'] = {'module': 'system',
-    'technique': 'TLC model check of FxpSystem (action properties Sticky, FlagIff, ResetLeavesRest, InaccPropagates over writes/resets/arithmetic with boundary inputs) + replay of the transition cover with a recorder callback on every object + TLC trace validation of flags and callback sequences after every call',
+    'technique': 'TLC model check of FxpSystem (action properties Sticky, FlagIff, ResetLeavesRest, InaccPropagates over writes/resets/arithmetic with boundary inputs) + replay of the transition cover with a recorder callback on every object + TLC trace validation of flags and callback sequences after every call + TLC model check and replay of the extension instance MC_System_X (bitwise operators and masks, expanding shifts, reductions, constants, in-place operators, raw stores; action properties ShiftExact, ReduceExact, BitKeepsFormat, IOpRebinds) with a vacuity guard on the action cover',
     'level_text': 'Histories of scalar-array writes, indexed writes, resets, config changes, conversions and arithmetic on inputs at the format bounds (max exact, above max, below min, tie) are explored exhaustively to the depth bound; on the real objects every flag of every object and the exact sequence of callbacks fired by each write are compared by TLC with the model after every call.',
     'level_note': _SYS_NOTE + ' Interpretation (DESIGN 5, C04): writes are x(v)/set_val/x[i]=v/equal; arithmetic = binary operators; unary/shift propagation is reported as extra conformance, not judged.'}
 PROPS['C02'] = {'module': 'system',
-    'technique': 'TLC model check of FxpSystem (invariant WellFormed on every reachable object) + replay of the transition cover + TLC trace validation where range, n_int, upper/lower/precision and the dtype string are evaluated on the attributes the REAL objects report after every call; saturation side checked in the store world (MC_Store SatSide)',
+    'technique': 'TLC model check of FxpSystem (invariant WellFormed on every reachable object) + replay of the transition cover + TLC trace validation where range, n_int, upper/lower/precision and the dtype string are evaluated on the attributes the REAL objects report after every call; saturation side checked in the store world (MC_Store SatSide) + TLC model check and replay of the extension instance MC_System_X (bitwise operators and masks, expanding shifts, reductions, constants, in-place operators, raw stores; action properties ShiftExact, ReduceExact, BitKeepsFormat, IOpRebinds) with a vacuity guard on the action cover',
     'level_text': 'Every object reachable by construct / set / indexed set / resize / like / arithmetic / negation / indexing histories of the bounded instance is checked by TLC for codes in range; on real objects TLC evaluates after every call, for every live object, codes within the range of its own format, n_int = n_word - n_frac - sign, upper/lower/precision = max/min code and one LSB, and dtype spelling, directly on the observed attributes.',
     'level_note': _SYS_NOTE}
 PROPS['C18'] = {'module': 'ext',
